@@ -1,11 +1,94 @@
 (* C02 — interval evaluation soundly encloses every point value in the box.
-   Statements only; filled from Interval/IntervalSound.v. *)
-From Coq Require Import List ZArith Bool.
-From LF Require Import Base.Opcode Interval.IntervalModel.
+   Statements only.  Point values are extended reals (XR.v: finite reals, +-inf,
+   NaN, IEEE conventions without rounding); an interval is libfive's Interval
+   (bounds + may-be-NaN flag) with every flag formula and case split of
+   interval.hpp (IntervalModel.v); Boost's primitives are only assumed to
+   enclose exact images ([B_sound]). *)
+From Coq Require Import Reals List ZArith Bool.
+From LF Require Import Base.Opcode Interval.IntervalModel Interval.XR Interval.IntervalSound.
 
-(* classification uses the flag first: a flagged interval is never EMPTY/FILLED *)
+(* what is assumed of the point kernels (eval_array.cpp): the arithmetic ones are
+   the IEEE operations, the transcendental ones only by their NaN behaviour *)
+Record point_sem (p_un : opcode -> xr -> xr) (p_bin : opcode -> xr -> xr -> xr) : Prop := {
+  ps_square : forall x, p_un OP_SQUARE x = xsquare x;
+  ps_sqrt : forall x, p_un OP_SQRT x = xsqrt x;
+  ps_neg : forall x, p_un OP_NEG x = xneg x;
+  ps_abs : forall x, p_un OP_ABS x = xabs x;
+  ps_recip : forall x, p_un OP_RECIP x = xrecip x;
+  ps_cv : forall x, p_un CONST_VAR x = x;
+  ps_add : forall x y, p_bin OP_ADD x y = xadd x y;
+  ps_sub : forall x y, p_bin OP_SUB x y = xsub x y;
+  ps_mul : forall x y, p_bin OP_MUL x y = xmul x y;
+  ps_div : forall x y, p_bin OP_DIV x y = xdiv x y;
+  ps_min : forall x y, p_bin OP_MIN x y = xmin_std x y;
+  ps_max : forall x y, p_bin OP_MAX x y = xmax_std x y;
+  ps_nanfill : forall x y, p_bin OP_NANFILL x y = xnanfill x y;
+  ps_compare : forall x y, p_bin OP_COMPARE x y = xcompare x y;
+  ps_mod : forall x y, p_bin OP_MOD x y = xmod x y;
+  ps_atan2 : forall y x, p_bin OP_ATAN2 y x = xatan2 y x;
+  ps_sin : forall x, p_un OP_SIN x = NaN <-> x = NaN \/ xinf x;
+  ps_cos : forall x, p_un OP_COS x = NaN <-> x = NaN \/ xinf x;
+  ps_tan : forall x, p_un OP_TAN x = NaN <-> x = NaN \/ xinf x;
+  ps_asin : forall x, p_un OP_ASIN x = NaN <->
+      x = NaN \/ xlt x (Fin (-1)) = true \/ xlt (Fin 1) x = true;
+  ps_acos : forall x, p_un OP_ACOS x = NaN <->
+      x = NaN \/ xlt x (Fin (-1)) = true \/ xlt (Fin 1) x = true;
+  ps_atan_nan : forall x, p_un OP_ATAN x = NaN <-> x = NaN;
+  ps_atan_rng : forall x, x <> NaN ->
+      xle (Fin (- (PI / 2))) (p_un OP_ATAN x) = true /\ xle (p_un OP_ATAN x) (Fin (PI / 2)) = true;
+  ps_exp : forall x, p_un OP_EXP x = NaN <-> x = NaN;
+  ps_log : forall x, p_un OP_LOG x = NaN <-> x = NaN \/ xlt x (Fin 0) = true;
+  ps_pow : forall x (n : Z), x <> NaN -> p_bin OP_POW x (Fin (IZR n)) <> NaN;
+  ps_pow_nan : forall y, p_bin OP_POW NaN y = NaN;
+  ps_root : forall x (n : Z), p_bin OP_NTH_ROOT x (Fin (IZR n)) = NaN <->
+      x = NaN \/ (xlt x (Fin 0) = true /\ Z.even n = true)
+}.
+
+(* Composition over any tape: if every leaf slot's point value lies in its
+   interval, so does every computed slot — in particular an unflagged result
+   means a non-NaN value inside the bounds — for all expressions, all boxes
+   (finite or infinite bounds, flagged operands).  [ok_std]: pow / nth_root
+   exponents are integer constants, mod's quotient bounds are finite. *)
+Theorem C02_eval_sound :
+  forall (B : bprims) p_un p_bin, point_sem p_un p_bin -> B_sound B p_un p_bin ->
+  forall (t : list clause) (D : nat -> Prop) (sp : nat -> xr) (si : nat -> xival),
+    wf t D -> tape_ok B (ok_std B) t si ->
+    (forall n, D n -> In_iv (sp n) (si n)) ->
+    forall n, def_run t D n -> In_iv (run_pt p_un p_bin t sp n) (run_iv B t si n).
+Proof.
+  intros B p_un p_bin [] HB. eapply eval_sound_std; eassumption.
+Qed.
+
+(* EMPTY / FILLED classification: no point of the opposite sign, none undefined *)
+Theorem C02_classified_ok : forall (x : xr) (A : xival),
+  In_iv x A ->
+  match state_of XI A with
+  | EMPTY => xlt (Fin 0) x = true
+  | FILLED => xlt x (Fin 0) = true
+  | AMBIGUOUS => True
+  end.
+Proof. exact classified_ok. Qed.
+
+(* mod: whenever the point result is NaN the interval is flagged, for all bounds *)
+Theorem C02_mod_flag_sound : forall (B : bprims) (x y : xr) (A B' : xival),
+  In_iv x A -> In_iv y B' -> xmod x y = NaN -> nanf (imod XI B A B') = true.
+Proof. exact imod_flag_sound. Qed.
+
+(* the hypotheses are satisfiable: a concrete instance with no assumption left *)
+Theorem C02_eval_sound_instance : forall t D sp si,
+  wf t D -> tape_ok B0 (ok_std B0) t si ->
+  (forall n, D n -> In_iv (sp n) (si n)) ->
+  forall n, def_run t D n -> In_iv (run_pt pu0 pb0 t sp n) (run_iv B0 t si n).
+Proof. exact eval_sound_std_instance. Qed.
+
+(* a flagged interval is never classified EMPTY or FILLED *)
 Theorem C02_flagged_is_ambiguous :
   forall (num : Type) (I : iops (num:=num)) (a : ival (num:=num)),
     nanf a = true -> state_of I a = AMBIGUOUS.
 Proof. intros num I a H; unfold state_of; rewrite H; reflexivity. Qed.
+
+Print Assumptions C02_eval_sound.
+Print Assumptions C02_classified_ok.
+Print Assumptions C02_mod_flag_sound.
+Print Assumptions C02_eval_sound_instance.
 Print Assumptions C02_flagged_is_ambiguous.
